@@ -3,7 +3,9 @@
    handleDonePeerMsg, startSync, BlockHeadersSynced, checkHeaderSanity with
    btcd's CheckBlockHeaderContext / CheckBlockHeaderSanity transliterated,
    rollBackToHeight, writeCFHeadersMsg, NotificationsSinceHeight) and of a
-   restart (newBlockManager over the existing stores).  No proofs here.
+   restart (newBlockManager over the existing stores), and of
+   handleHeadersMsg when a write to the block header store fails.  No proofs
+   here.
 
    Headers are records of the fields the rules look at; [hid]/[hprev] are hash
    tokens, [hnum] the 256-bit value of the header's own hash.  The two header
@@ -16,7 +18,8 @@
    The model is of the tree WITH the fixes for F01 (list re-synchronised with
    the store on every exit of handleHeadersMsg), F02 (checkpoint floor taken
    at tip height + 1), F14 (in-memory filter tip lowered by rollbacks) and
-   F17 (a reorg branch contradicting a checkpoint is rejected outright). *)
+   F17 (a reorg branch contradicting a checkpoint is rejected outright) and
+   F70 (a failed write of a branch's first header ends the message). *)
 From stdpp Require Import list.
 From Coq Require Import ZArith Lia.
 Open Scope Z_scope.
@@ -414,6 +417,81 @@ Definition handle_headers (P : params) (now : Z) (p : Z) (hs : list header) (s :
     end
   end.
 
+(* ---------- handleHeadersMsg with a failing BlockHeaders.WriteHeaders ----------
+   The k-th WriteHeaders call the handler makes for this message fails and
+   writes nothing (k >= 1; what the store itself does under a fault is C07's
+   subject).  The handler makes at most two calls: one for the first header
+   of a branch it switches to (right after the rollback), and one for the
+   validated batch at the end.
+   - the batch write fails: "Unable to write block headers", return; the
+     next checkpoint is NOT advanced (that happens after the write), peers'
+     heights and a sync-peer switch made earlier in the message stay, the
+     deferred syncHeaderListWithStore resets the window to the stored tip;
+   - the write of a branch's first header fails (F70 fixed: the handler used
+     to carry on and write the rest of the branch one height too high):
+     return; the rollback has happened and its notifications were emitted, the
+     sender is the sync peer, the window is reset to the stored tip. *)
+(* the header at which step_header switches to a branch: (fork header, fork height) *)
+Definition reorg_point (P : params) (now : Z) (p : Z) (a : acc) (bh : header) (rest : list header) : option (header * Z) :=
+  let s := a_s a in
+  match last (hl s) with
+  | None => None
+  | Some pn =>
+    if hid (nhdr pn) =? hprev bh then None
+    else if negb (is_sync s p) && negb (headers_synced P now s) then None
+    else if hid bh =? hid (nhdr pn) then None
+    else match fetch_header (chain s) (hid bh) with
+    | Some _ => None
+    | None =>
+      match fetch_header (chain s) (hprev bh) with
+      | None => None
+      | Some (backHead, backH) =>
+        if backH <? (find_prev_cp P (nheight pn + 1)).1 then None else
+        match reorg_check P now (chain s) [{| nheight := backH; nhdr := backHead |}] backH backHead (bh :: rest) 0 with
+        | None => None
+        | Some total =>
+          let known := known_work (zn (nheight pn - backH) + 1) (chain s) (hl s) None (nheight pn) backH 0 in
+          if known >? total then None else if known =? total then None else Some (backHead, backH)
+        end
+      end
+    end
+  end.
+
+(* [k] = which of the WriteHeaders calls still to come fails (0: none) *)
+Definition step_header_f (P : params) (now : Z) (p : Z) (k : Z) (a : acc) (bh : header) (rest : list header) : outcome * Z :=
+  match reorg_point P now p a bh rest with
+  | Some (_, backH) =>
+    if k =? 1 then (Return (roll_back_to backH (set_sync (Some p) (a_s a))), 0)
+    else (step_header P now p a bh rest, k - 1)
+  | None => (step_header P now p a bh rest, k)
+  end.
+
+Fixpoint loop_f (P : params) (now : Z) (p : Z) (k : Z) (a : acc) (hs : list header) : outcome * Z :=
+  match hs with
+  | [] => (Break a, k)
+  | bh :: rest =>
+    match step_header_f P now p k a bh rest with
+    | (Continue a', k') => loop_f P now p k' a' rest
+    | r => r
+    end
+  end.
+
+Definition handle_headers_f (P : params) (now : Z) (p : Z) (hs : list header) (k : Z) (s : state) : state :=
+  match hs with
+  | [] => s
+  | _ =>
+    if negb (headers_connected hs) then disconnect p s else
+    resync
+    match loop_f P now p k {| a_s := s; a_batch := []; a_recvcp := false; a_finalh := 0 |} hs with
+    | (Return s', _) => s'
+    | (Continue a, k') | (Break a, k') =>
+      if (k' =? 1) && (match a_batch a with [] => false | _ => true end) then a_s a
+      else
+        let s1 := write_headers (a_batch a) (a_s a) in
+        if a_recvcp a then set_cp (find_next_cp P (a_finalh a)) s1 else s1
+    end
+  end.
+
 (* ---------- peers coming and going ---------- *)
 Definition start_sync (s : state) : state :=
   match syncPeer s with
@@ -532,7 +610,8 @@ Inductive op :=
 | ODonePeer (p : Z)
 | OWriteCF (prev : Z) (fs : list Z) (stop : Z)
 | ORollback (h : Z)
-| ORestart.
+| ORestart
+| OHeadersF (p : Z) (now : Z) (hs : list header) (k : Z).
 
 Definition step (P : params) (s : state) (o : op) : state :=
   match o with
@@ -544,6 +623,7 @@ Definition step (P : params) (s : state) (o : op) : state :=
   | OWriteCF prev fs stop => fst (write_cf prev fs stop s)
   | ORollback h => roll_back_to h s
   | ORestart => restart P s
+  | OHeadersF p now hs k => handle_headers_f P now p hs k s
   end.
 
 Definition init_state (P : params) (gfh : Z) : state :=
